@@ -24,3 +24,9 @@ Print Assumptions C20_stop_sequence.
 Theorem C20_stop_idempotent : forall s c, (running s = false \/ stopping s = true) -> step s (StopBegin c) = (s, Ignored).
 Proof. exact stop_idempotent. Qed.
 Print Assumptions C20_stop_idempotent.
+
+(* Start/Stop may be repeated: a restarted service begins with an empty cache, so nothing cached before the stop (which it
+   could not keep current while stopped) is ever served. *)
+Theorem C20_restart_empty_cache : forall s, snd (step s Start) = Ok -> cached (fst (step s Start)) = 0.
+Proof. exact start_empties_cache. Qed.
+Print Assumptions C20_restart_empty_cache.
